@@ -249,7 +249,7 @@ fn draw_scripted() -> Scripted {
 }
 
 pub fn run() -> Outcome {
-    let scenario = ch("e2.scenario", 7);
+    let scenario = ch("e2.scenario", 8);
     match scenario {
         7 => crate::e3_httpcache::run_c12_files(),
         _ => run_scripted(scenario),
